@@ -897,6 +897,11 @@ func (h *fsmHandler) idle(ctx context.Context) (bgp.FSMState, *fsmStateReason) {
 				case adminStateDown:
 					// stop idle hold timer
 					idleHoldTimer.Stop()
+					// an administratively down peer must not keep dialling (the manager
+					// survives a move to Idle that was not caused by the administrator)
+					if fsm.outgoingConnMgr != nil {
+						fsm.outgoingConnMgr.stop()
+					}
 
 				case adminStateUp:
 					// restart idle hold timer
